@@ -55,6 +55,9 @@ def jobs(tier, seed):
     J.append(Job("01.g/next-exact", "c01::c01g_next_exact", [], est=10, clause="01.g", bound="all half-integer day counts in range, all n"))
     J.append(Job("01.h/lengths", "c01::c01h_lengths", [], est=20, timeout=900, clause="01.h", bound="all (y, m)"))
     J.append(Job("01.h/day-of-year", "c01::c01h_doy", [], stubs=["fmt_empty", "sd_jd_ghost"], est=20, timeout=900, clause="01.h", bound="all dates"))
+    for (a, b) in ([(1, 4), (1580, 1584), (1998, 2001), (9996, 9999)] if not T else [(1, 1000), (1001, 1581), (1582, 1582), (1583, 3000), (3001, 5000), (5001, 7000), (7001, 9999)]):
+        J.append(Job("01.h/day-of-year-cal/y%d-%d" % (a, b), "c01::c01h_doy_cal", [a, b], stubs=["fmt_empty", "sd_jd_ord"], unwind=14, est=15 if not T else 300, timeout=900 if not T else 2400,
+                     clause="01.h", bound="all dates of years %d..%d" % (a, b)))
     J.append(Job("01.h/year-sum", "c01::c01h_year_sum", [], unwind=14, est=10, timeout=900, clause="01.h", bound="all years"))
     if not T:
         for (a, b) in ERAS:
